@@ -2480,7 +2480,7 @@ fn main() {
     // starts no new case after SEARCH_BUDGET of wall time - a search is not a verdict: the tree is red either way, the
     // budget only decides whether the red verdict carries a concrete input.  (The ordinary quick / thorough runs are not
     // bounded.)  Within a case the waits shrink once a run was seen to hang or to lose its closing frame.
-    const SEARCH_BUDGET: Duration = Duration::from_secs(240);
+    const SEARCH_BUDGET: Duration = Duration::from_secs(180);
     const SEARCH_STOP_AFTER: usize = 3;
     let t_search = Instant::now();
     let total_cases = cases.len();
